@@ -298,7 +298,14 @@ def _walk_to_loop(fn, pn):
             if g.exit.id not in reach and not any(g.nodes[x].kind == "iter" for x in reach):
                 truth = (lab == "F")           # take the other edge
                 val[pn(core)] = (not truth) if flip else truth
-    return walk(fn, val, pn)
+    # tests whose names were re-bound (an alias of self.grid, an inlined helper's locals) are looked up by their expanded text, which the raw-text
+    # valuation above cannot anticipate: those are followed both ways and the path that reaches the loop is taken
+    from ..pathtable import walk_paths
+    res = walk_paths(fn, val, pn, limit=64)
+    loops = [r for r in res if r[0] == "loop"]
+    if loops:
+        return loops[0]
+    return res[0] if res else ("unknown", "no path")
 
 
 def _r5(chk, repo):
